@@ -10,9 +10,10 @@ readyCh }`, THEN `RLock`, read, deferred `RUnlock`) and any number of `Watch` ca
 subscription under the WRITE lock), over `sync.RWMutex` (a pending writer blocks new readers; writers
 exclude each other) and the two channels.
 
-Abstractions: the notification of subscribers inside `updateAnchors` (sends into channels of capacity
-5 while the write lock is held) is assumed not to block; the `Watch` loop after registration is not
-modelled; the file is `absent | version v | garbage`.
+The notification of subscribers inside `updateAnchors` (sends into channels of capacity 5, awaited by
+the deferred `wg.Wait()` while the write lock is still held) is the pc `uNotify`: it can proceed only
+while no subscriber is stalled (`subBlocked`, set and cleared by the environment labels `subStall` /
+`subDrain`).  Abstractions: the `Watch` loop after registration is not modelled; the file is `absent | version v | garbage`.
 -/
 namespace Kit.Spiffe.TA
 
@@ -28,6 +29,7 @@ inductive RunPc where
   | uPend (reload : Bool)       -- inside `Lock()`: announced, waiting for readers to drain
   | uRead (reload : Bool)       -- holds W; `os.ReadFile` + decode
   | uSet (reload : Bool) (v : Nat)  -- holds W; assigns `rootPEM` / `bundle`
+  | uNotify (reload : Bool)     -- holds W; deferred `wg.Wait()`: every subscriber must take its notification
   | uUnlock (reload : Bool)     -- holds W; subscribers notified; deferred `Unlock()`
   | uUnlockErr                  -- holds W; load failed; deferred `Unlock()`
   | mkWatcher                   -- `fswatcher.New`
@@ -65,6 +67,7 @@ structure St where
   closed : Bool := false         -- closeCh closed
   bundle : Option Nat := none    -- version of `f.bundle` / `f.rootPEM`
   file : FileSt := .absent
+  subBlocked : Bool := false     -- some Watch subscriber's channel (capacity 5) is full and nobody reads it
   run : RunPc := .idle
   cons : List ConsPc := []
   deriving DecidableEq, Repr
@@ -73,6 +76,7 @@ inductive Lbl where
   | callRun | callBundle (ctx : Bool) | callWatch
   | runLoser
   | fileWrite (f : FileSt)       -- the environment writes the trust-anchor file
+  | subStall | subDrain          -- a Watch consumer stops / resumes reading its channel
   | stop                         -- Run's ctx is done
   | watcherErr                   -- `fswatcher.New` fails
   | ctxDone (i : Nat)            -- consumer i's ctx is done and its select takes that case
@@ -100,7 +104,8 @@ def runStep (s : St) : Option St :=
     match s.file with
     | .ver v => some { s with run := .uSet r v }
     | _ => some { s with run := .uUnlockErr }
-  | .uSet r v => some { s with bundle := some v, run := .uUnlock r }
+  | .uSet r v => some { s with bundle := some v, run := .uNotify r }
+  | .uNotify r => if s.subBlocked then none else some { s with run := .uUnlock r }
   | .uUnlock r => some { s with wHeld := false, run := if r then .loop else .mkWatcher }
   | .uUnlockErr => some { s with wHeld := false, run := .exiting true }
   | .mkWatcher => some { s with run := .closeReady }
@@ -129,6 +134,8 @@ def step (s : St) : Lbl → Option St
   | .callWatch => some { s with cons := s.cons ++ [.sCall] }
   | .runLoser => if s.running then some s else none
   | .fileWrite f => some { s with file := f, run := if s.run = .loop then .uWant true else s.run }
+  | .subStall => some { s with subBlocked := true }
+  | .subDrain => some { s with subBlocked := false }
   | .stop =>
     if s.run = .loop then some { s with run := .exiting false }
     else if s.run = .waitFile then some { s with run := .exiting true }
@@ -188,7 +195,7 @@ def tauSucc (s : St) : List St :=
 
 def RunPc.code : RunPc → Nat
   | .idle => 0 | .called => 1 | .waitFile => 2 | .uWant _ => 3 | .uPend _ => 4 | .uRead _ => 5 | .uSet _ _ => 6
-  | .uUnlock _ => 7 | .uUnlockErr => 8 | .mkWatcher => 9 | .closeReady => 10 | .loop => 11 | .exiting _ => 12
+  | .uNotify _ => 14 | .uUnlock _ => 7 | .uUnlockErr => 8 | .mkWatcher => 9 | .closeReady => 10 | .loop => 11 | .exiting _ => 12
   | .done _ => 13
 
 def ConsPc.code : ConsPc → Nat
